@@ -1327,6 +1327,9 @@ class Parallel(Logger):
             raise ValueError("n_jobs could not be converted to int")
         self.n_jobs = n_jobs
 
+        # The constraint can come from the Parallel arguments or from an
+        # enclosing parallel_config context.
+        require = self._backend_kwargs["require"]
         if require == "sharedmem" and not getattr(backend, "supports_sharedmem", False):
             raise ValueError("Backend %s does not support shared memory" % backend)
 
